@@ -64,6 +64,12 @@ Proof. destruct b; discriminate. Qed.
 Lemma env_empty_list_pinned_refuted : exists b, env_empty_list_step false b = EnvPanic.
 Proof. exists true. reflexivity. Qed.
 
+Lemma env_subkey_no_panic b : env_subkey_step true b <> EnvPanic.
+Proof. destruct b; discriminate. Qed.
+
+Lemma env_subkey_pinned_refuted : exists b, env_subkey_step false b = EnvPanic.
+Proof. exists true. reflexivity. Qed.
+
 (* ---------------------------------------------------------------- power of two *)
 Lemma land_even_odd a b : Z.land (2 * a) (2 * b + 1) = 2 * Z.land a b.
 Proof.
@@ -198,6 +204,7 @@ Proof.
   split; [reflexivity|].
   unfold path_ok in Hok.
   set (re := name_is_regex (p_name p)) in *. set (s := p_source p) in *.
+  apply andb_true_iff in Hok as [Hok H15].
   apply andb_true_iff in Hok as [Hok H14]. apply andb_true_iff in Hok as [Hok H13].
   apply andb_true_iff in Hok as [Hok H12]. apply andb_true_iff in Hok as [Hok H11].
   apply andb_true_iff in Hok as [Hok H10]. apply andb_true_iff in Hok as [Hok H9].
@@ -208,7 +215,7 @@ Proof.
   split.
   - unfold path_documented_b.
     cbn [p_regex p_name p_record_path p_seg p_del p_source p_on_demand p_srt_read
-         p_srt_pub p_run_init p_run_demand p_aa p_abs_ts p_redirect set_regex].
+         p_srt_pub p_run_init p_run_demand p_aa p_abs_ts p_redirect p_tracks set_regex].
     fold re. fold s.
     repeat (apply andb_true_iff; split).
     + apply eqb_reflx.
@@ -227,6 +234,7 @@ Proof.
     + clear - H4. unfold source_ok in H4. subst s. destruct (p_source p) as [| | |[]|]; simpl in *; congruence.
     + clear - H4. unfold source_ok in H4. subst s. destruct (p_source p) as [| | |[]|]; simpl in *; congruence.
     + clear - H3. destruct (p_redirect p), (src_eqb s SRedirect); simpl in *; congruence.
+    + exact H15.
   - clear - H4. unfold rpi_facts, source_ok in *. subst s.
     destruct (p_source p) as [| | |ok|]; simpl; try reflexivity.
     apply andb_true_iff in H4 as [_ H4].
@@ -363,7 +371,8 @@ Theorem documented_meaning g : documented_b g = true ->
     (p_regex p = true -> p_source p <> SPublisher -> p_source p <> SRedirect -> p_on_demand p = true) /\
     (p_on_demand p = true -> p_source p <> SPublisher) /\
     (p_source p = SRpi -> p_secondary p = false -> (primaries_with (p_cam p) (g_paths g) <= 1)%nat) /\
-    (p_source p = SRpi -> p_secondary p = true -> (1 <= primaries_with (p_cam p) (g_paths g))%nat).
+    (p_source p = SRpi -> p_secondary p = true -> (1 <= primaries_with (p_cam p) (g_paths g))%nat) /\
+    (forall t, In t (p_tracks p) -> track_ok t = true).
 Proof.
   unfold documented_b. intros H.
   apply andb_true_iff in H as [H Hrpi]. apply andb_true_iff in H as [H Hpaths].
@@ -375,6 +384,7 @@ Proof.
   intros p Hp. rewrite forallb_forall in Hpaths, Hone. specialize (Hpaths p Hp). specialize (Hone p Hp).
   clear Hr Hw Hpow Hudp Halias Hnd.
   unfold path_documented_b in Hpaths.
+  apply andb_true_iff in Hpaths as [Hpaths Ho].
   apply andb_true_iff in Hpaths as [Hpaths Hn]. apply andb_true_iff in Hpaths as [Hpaths Hm].
   apply andb_true_iff in Hpaths as [Hpaths Hl]. apply andb_true_iff in Hpaths as [Hpaths Hk].
   apply andb_true_iff in Hpaths as [Hpaths Hj]. apply andb_true_iff in Hpaths as [Hpaths Hi].
@@ -409,8 +419,9 @@ Proof.
     destruct (p_source p); simpl in He; try congruence; exact He. }
   split.
   { clear - Hf. intros Hod Hs. rewrite Hod, Hs in Hf. discriminate. }
-  clear - Hone.
-  split; intros Hs Hsec; rewrite Hs, Hsec in Hone; simpl in Hone.
+  clear - Hone Ho.
+  split; [|split]; [intros Hs Hsec; rewrite Hs, Hsec in Hone; simpl in Hone ..|].
   - destruct (primaries_with (p_cam p) (g_paths g)) as [|[|n]]; try discriminate; lia.
   - destruct (primaries_with (p_cam p) (g_paths g)) as [|n]; try discriminate; lia.
+  - rewrite forallb_forall in Ho. exact Ho.
 Qed.
